@@ -338,6 +338,10 @@ class GHEManager:
         :returns: Zero if successful, nonzero if failure
         :rtype: int
         """
+        # the schema allows any number: months are counted, so a whole number given as a float (240.0) is taken as such
+        if int(num_months) != num_months:
+            raise ValueError("num_months must be a whole number of months.")
+        num_months = int(num_months)
         self._simulation_parameters = SimulationParameters(
             1, num_months, max_eft, min_eft, max_height, min_height, max_boreholes, continue_if_design_unmet
         )
